@@ -91,6 +91,19 @@ def _shift_term_targets(t, boff):
         t["arms"] = [[v, tg + boff] for v, tg in t["arms"]]
 
 
+def only_pred(blocks, target, pred):
+    """True when `pred` is the only block that can jump to `target`"""
+    for i, b in enumerate(blocks):
+        if i == pred:
+            continue
+        t = b["term"]
+        tg = [t.get(k) for k in ("target", "otherwise", "drop") if isinstance(t.get(k), int) and not isinstance(t.get(k), bool)]
+        tg += [x for v, x in t.get("arms", [])]
+        if target in tg:
+            return False
+    return True
+
+
 def _assign(lhs, rv, line=0):
     return {"s": "assign", "lhs": lhs, "rv": rv, "line": line, "exp": True}
 
@@ -195,6 +208,18 @@ def _inline_into(prog, raw, block_ids, stack, depth):
                                                                               "ops": [{"move": {"l": off, "p": []}}]}, pt.get("line", 0)))
                 blocks[pb]["term"] = {"t": "goto", "target": pt["target"], "line": pt.get("line"), "exp": True, "file": pt.get("file", raw.get("file")),
                                       "inlined_poll_of": src.key}
+                # the inlined future is complete here: the `match poll { Ready(x) => .., Pending => yield }` that follows can only take
+                # its Ready arm — drop the Pending edge so that no rule mistakes it for a path
+                tb = blocks[pt["target"]]
+                tt = tb["term"]
+                if tt["t"] == "switch" and only_pred(blocks, pt["target"], pb):
+                    dl = op_local(tt["discr"])
+                    for st in tb["stmts"]:
+                        if st["s"] == "assign" and st["lhs"]["l"] == dl and st["rv"]["k"] == "discr" and st["rv"]["place"]["l"] == pt["dest"]["l"] and not st["rv"]["place"]["p"]:
+                            ready = [int(v) for v, nm in st["rv"].get("variants", []) if nm == "Ready"]
+                            arm = [tg for v, tg in tt["arms"] if ready and v == ready[0]]
+                            if arm:
+                                tb["term"] = {"t": "goto", "target": arm[0], "line": tt.get("line"), "exp": True, "file": tt.get("file", raw.get("file"))}
         else:
             for k, a in enumerate(args):
                 binds.append(_assign({"l": off + 1 + k, "p": []}, {"k": "use", "op": copy.deepcopy(a)}, t.get("line", 0)))
